@@ -16,13 +16,16 @@ from ..gen_query import gen_document
 RULE = ("response bodies from the spec grammar: `data` absent / null / object; `errors` absent / [] / 1-5 entries, each with "
         "message and optional locations (0-3, absent / null), path (names, numeric-looking names, non-negative indices; absent / "
         "null / []), extensions (arbitrary nested JSON incl. big integers, floats, nulls; absent / null); top-level extensions; "
-        "unknown members at every level; compact and pretty texts with non-ASCII and escapes; every body through from_str, "
+        "unknown members at every level (invented names, names real servers send such as `description` / `code` / `errorType`, names known at another level, case variants); Display also after the value was written into sinks that fail at the first, middle and last byte; compact and pretty texts with non-ASCII and escapes; every body through from_str, "
         "from_value, from_slice and from_reader (borrowed, owned and transient strings). Also Response<generated "
         "ResponseData> through compiled consumer code, and a subset of bodies under Miri. Non-trivial = body with >= 1 error "
         "having a path or locations, or unknown members; distinct by body text")
 
 FLOOR = {"bodies": 2000, "errors-checked": 2000, "with-path": 500, "with-locations": 500, "unknown-members": 500, "data-absent": 100, "data-null": 100, "typed-envelopes": 20}
 
+UNKNOWN_IN_ERROR = ["zz_unknown", "description", "code", "type", "errorType", "validationErrorType", "queryPath", "status", "timestamp", "stack", "name", "data", "errors",
+                    "line", "column", "Message", "MESSAGE", "messages", "location", "paths", "extension", "Extensions"]
+UNKNOWN_AT_TOP = ["zz_top_unknown", "message", "path", "locations", "status", "error", "hasNext", "label", "incremental", "Data", "Errors", "extension", "description"]
 NAMES = ["user", "friends", "name", "id", "12", "0", "é", "a_b", "fieldName", "__typename", "x y", "a.b"]
 
 
@@ -52,7 +55,7 @@ def gen_error(rng, st):
         locs = [{"line": rng.choice([0, 1, 7, 2147483647, -1]), "column": rng.choice([0, 1, 80, 2147483647])} for _ in range(rng.randint(0, 3))]
         exp["locations"] = [dict(l) for l in locs]
         if locs and rng.random() < 0.3:
-            locs[0] = dict(locs[0], extra="ignored")
+            locs[0] = dict(locs[0], **{rng.choice(["extra", "offset", "source", "message", "path", "Line"]): rng.choice(["ignored", 3, None])})
             st["unknown"] = True
         e["locations"] = locs
         st["locations"] = True
@@ -74,8 +77,11 @@ def gen_error(rng, st):
     else:
         e["extensions"] = rand_obj(rng)
         exp["extensions"] = e["extensions"]
-    if rng.random() < 0.25:
-        e["zz_unknown"] = rand_json(rng)
+    if rng.random() < 0.3:
+        # members the type does not know: invented names, names other servers really send, and the names of members that
+        # are known at ANOTHER level of the envelope or differ from a known one in case only
+        for name in rng.sample(UNKNOWN_IN_ERROR, rng.choice([1, 1, 2])):
+            e[name] = rand_json(rng)
         st["unknown"] = True
     return e, exp
 
@@ -112,8 +118,9 @@ def gen_body(rng):
     else:
         body["extensions"] = rand_obj(rng)
         exp["extensions"] = body["extensions"]
-    if rng.random() < 0.25:
-        body["zz_top_unknown"] = rand_json(rng)
+    if rng.random() < 0.3:
+        for name in rng.sample(UNKNOWN_AT_TOP, rng.choice([1, 1, 2])):
+            body[name] = rand_json(rng)
         st["unknown"] = True
     keys = list(body.items())
     rng.shuffle(keys)
@@ -218,6 +225,11 @@ def judge_body(run, bid, text, body, exp, st, ob, via=""):
                 if disp.get("s") != display_ref(e):
                     sym = "Display of errors[%d]: %r, reference %r" % (i, disp.get("s"), display_ref(e))
                     break
+                if "again" in disp:
+                    run.count("displays-after-failed-writes", disp.get("failed_writes", 0))
+                    if disp["again"] != display_ref(e):
+                        sym = "Display of errors[%d] after %d writes into failing sinks: %r, reference %r" % (i, disp.get("failed_writes", 0), disp["again"], display_ref(e))
+                        break
     if sym:
         run.violation(case, ("[%s] " % via if via else "") + sym, {"observed": ob})
     else:
